@@ -79,6 +79,23 @@ func init() {
 				{File: "internal/protocol/frame.go", Old: "\tif len(f.Payload) > MaxPayloadSize {\n\t\treturn nil, ErrFrameTooLarge\n\t}\n\n\tbuf := make([]byte, HeaderSize+len(f.Payload))", New: "\tif err := f.validate(); err != nil {\n\t\treturn nil, err\n\t}\n\n\tbuf := make([]byte, HeaderSize+len(f.Payload))"},
 				{File: "internal/protocol/frame.go", Old: "// DecodeHeader decodes a frame header from bytes.", New: "func (f *Frame) validate() error {\n\tif len(f.Payload) > MaxPayloadSize {\n\t\treturn ErrFrameTooLarge\n\t}\n\treturn nil\n}\n\n// DecodeHeader decodes a frame header from bytes."},
 			}},
+			{Name: "frame writer encodes through an unchecked appender", ExpectRule: "C07.R1", ExpectKey: "FrameWriter", Edits: []Edit{
+				{File: "internal/protocol/frame.go", Old: "// DecodeHeader decodes a frame header from bytes.", New: "func (f *Frame) appendTo(dst []byte) []byte {\n\tvar header [HeaderSize]byte\n\theader[0] = f.Type\n\theader[1] = f.Flags\n\tbinary.BigEndian.PutUint32(header[2:6], uint32(len(f.Payload)))\n\tbinary.BigEndian.PutUint64(header[6:14], f.StreamID)\n\tdst = append(dst, header[:]...)\n\treturn append(dst, f.Payload...)\n}\n\n// DecodeHeader decodes a frame header from bytes."},
+				{File: "internal/protocol/frame.go", Old: "\tdata, err := f.Encode()\n\tif err != nil {\n\t\treturn err\n\t}\n\t_, err = fw.w.Write(data)\n\treturn err\n", New: "\tdata := f.appendTo(nil)\n\t_, err := fw.w.Write(data)\n\treturn err\n"},
+			}},
+			{Name: "rewrite: frame writer checks the size itself and appends into a scratch buffer", Edits: []Edit{
+				{File: "internal/protocol/frame.go", Old: "// DecodeHeader decodes a frame header from bytes.", New: "func (f *Frame) appendTo(dst []byte) []byte {\n\tvar header [HeaderSize]byte\n\theader[0] = f.Type\n\theader[1] = f.Flags\n\tbinary.BigEndian.PutUint32(header[2:6], uint32(len(f.Payload)))\n\tbinary.BigEndian.PutUint64(header[6:14], f.StreamID)\n\tdst = append(dst, header[:]...)\n\treturn append(dst, f.Payload...)\n}\n\n// DecodeHeader decodes a frame header from bytes."},
+				{File: "internal/protocol/frame.go", Old: "\tdata, err := f.Encode()\n\tif err != nil {\n\t\treturn err\n\t}\n\t_, err = fw.w.Write(data)\n\treturn err\n", New: "\tif len(f.Payload) > MaxPayloadSize {\n\t\treturn ErrFrameTooLarge\n\t}\n\tdata := f.appendTo(make([]byte, 0, HeaderSize+len(f.Payload)))\n\t_, err := fw.w.Write(data)\n\treturn err\n"},
+			}},
+			{Name: "short tail folded into the last tcp chunk", ExpectRule: "C07.R3", ExpectKey: "meshConn", Edits: []Edit{
+				{File: "internal/agent/agent.go", Old: "\t\tend := offset + maxPlaintext\n\t\tif end > len(b) {\n", New: "\t\tend := offset + maxPlaintext\n\t\tif end > len(b) || len(b)-end < crypto.EncryptionOverhead {\n"},
+			}},
+			{Name: "tcp write encrypts the whole remainder at once", ExpectRule: "C07.R2", ExpectKey: "application write", Edits: []Edit{
+				{File: "internal/agent/agent.go", Old: "\t\tciphertext, err := sessionKey.Encrypt(chunk)\n", New: "\t\tciphertext, err := sessionKey.Encrypt(b[offset:])\n\t\t_ = chunk\n"},
+			}},
+			{Name: "exit read buffer grows to a full frame", ExpectRule: "C07.R2", ExpectKey: "exit", Edits: []Edit{
+				{File: "internal/exit/handler.go", Old: "\t\tn, err := ac.Conn.Read(buf)\n", New: "\t\tn, err := ac.Conn.Read(buf)\n\t\tif n == len(buf) && len(buf) < protocol.MaxPayloadSize {\n\t\t\tbuf = make([]byte, protocol.MaxPayloadSize)\n\t\t}\n"},
+			}},
 			{Name: "rewrite: maxPlaintext as package constant, min() for the chunk end", Edits: []Edit{
 				{File: "internal/agent/agent.go", Old: "\tmaxPlaintext := protocol.MaxPayloadSize - crypto.EncryptionOverhead\n\n\t// Chunk data into max plaintext size pieces, encrypt each, and send\n\tfor offset := 0; offset < len(b); {\n\t\tend := offset + maxPlaintext\n\t\tif end > len(b) {\n\t\t\tend = len(b)\n\t\t}\n", New: "\tconst maxPlaintext = protocol.MaxPayloadSize - crypto.EncryptionOverhead\n\n\tfor offset := 0; len(b) > offset; {\n\t\tend := min(offset+maxPlaintext, len(b))\n"},
 			}},
@@ -241,14 +258,48 @@ func (cx *c07ctx) ruleR1() {
 			nW++
 			arg := kit.Arg(c, 0)
 			ok := false
-			if call, idx, isRes := kit.ResultOf(arg); isRes && idx == 0 && kit.CalleeOf(call).Static == enc {
-				if e := kit.ErrResultOf(call); e != nil && kit.ErrNilOn(kit.GuardsOf(c), e) {
-					ok = true
+			samples := []int64{cx.limit() + 1, cx.limit() + 2, cx.limit() + 14, 1 << 20, 1 << 31, 1 << 40}
+			q := func(base ssa.Value) func(ssa.Value) bool {
+				return func(v ssa.Value) bool {
+					cl, ok := g2stripConv(v).(*ssa.Call)
+					if !ok || kit.CalleeOf(cl).Built != "len" || len(cl.Call.Args) != 1 {
+						return false
+					}
+					f, b := kit.LoadedField(cl.Call.Args[0])
+					return f == cx.framePay && b == base
+				}
+			}
+			producers := cx.producerCalls(m, arg)
+			for _, call := range producers {
+				callee := kit.CalleeOf(call).Static
+				if callee == nil {
+					continue
+				}
+				// (a) the checked encoder, used on its err == nil edge
+				if callee == enc {
+					if e := kit.ErrResultOf(call); e != nil && kit.ErrNilOn(kit.GuardsOf(c), e) {
+						ok = true
+					}
+					continue
+				}
+				// (b) another producer of frame bytes whose own returns are size-guarded
+				if cx.bytesGuarded(callee, q, samples) {
+					if e := kit.ErrResultOf(call); e == nil || kit.ErrNilOn(kit.GuardsOf(c), e) {
+						ok = true
+					}
+				}
+			}
+			// (c) the size check is made at the write site itself, on the frame being written
+			if !ok && len(producers) > 0 {
+				for _, prm := range m.Params {
+					if c07isFramePtr(prm.Type()) && g2lenGuarded(kit.GuardsOf(c), prm, q, samples) {
+						ok = true
+					}
 				}
 			}
 			r.Decide(ok, "C07.R1", fmt.Sprintf("%s FrameWriter write #%d", kit.FuncName(m), nW), p.Pos(c.Pos()),
-				"writes exactly the bytes returned by Frame.Encode, on its err==nil edge",
-				"the frame writer hands bytes to the stream that are not the checked result of Frame.Encode: the size limit is bypassed")
+				"writes frame bytes whose payload length was checked against the limit (by the encoder that produced them or at the write site)",
+				"the frame writer hands bytes to the stream that are not the checked result of Frame.Encode (nor size-checked by their producer or at the write site): the size limit is bypassed")
 		}
 	}
 	r.Require(nW >= 1, "floor: no io.Writer.Write call found in the methods of protocol.FrameWriter")
@@ -488,7 +539,7 @@ func (cx *c07ctx) ruleR2() {
 			if !have {
 				origins = append(origins, o)
 				byOrigin[o] = a
-			} else if !cur.top && (a.top || a.n > cur.n) {
+			} else if (!cur.top && (a.top || a.n > cur.n)) || (a.top && a.api && !cur.api) {
 				byOrigin[o] = a
 			}
 		}
@@ -497,6 +548,11 @@ func (cx *c07ctx) ruleR2() {
 			key := fmt.Sprintf("%s Encrypt #%d", fname, ord[fname])
 			if a.origin != "" && a.origin != fname && !a.top {
 				key += " <- " + a.origin
+			}
+			if a.top && a.api {
+				r.Violation("C07.R2", key+" <- application write", p.Pos(s.call.Pos()),
+					"the plaintext is the whole argument of an io.Writer-style Write (%s), not a chunk of bounded size: a write larger than MaxPayloadSize-EncryptionOverhead yields one AEAD message that cannot be carried in a single frame", a.origin)
+				continue
 			}
 			if a.top {
 				nTop++
@@ -883,4 +939,103 @@ func (cx *c07ctx) flagsOnLastRest(fn *ssa.Function, s *ssa.Slice, key string, is
 				"caller flags (FIN) can be put on a chunk that is not the last: the receiver half-closes before the remaining bytes arrive")
 		}
 	}
+}
+
+// producerCalls: the calls whose result is (part of) the bytes v written in method m, followed
+// through slices, phis and a field of the receiver that is assigned in m.
+func (cx *c07ctx) producerCalls(m *ssa.Function, v ssa.Value) []*ssa.Call {
+	var out []*ssa.Call
+	seen := map[ssa.Value]bool{}
+	var rec func(x ssa.Value, d int)
+	rec = func(x ssa.Value, d int) {
+		if x == nil || seen[x] || d > 8 {
+			return
+		}
+		seen[x] = true
+		switch t := x.(type) {
+		case *ssa.Call:
+			if kit.CalleeOf(t).Built == "append" {
+				for _, a := range t.Call.Args {
+					rec(a, d+1)
+				}
+				return
+			}
+			out = append(out, t)
+		case *ssa.Extract:
+			rec(t.Tuple, d+1)
+		case *ssa.Slice:
+			rec(t.X, d+1)
+		case *ssa.Phi:
+			for _, e := range t.Edges {
+				rec(e, d+1)
+			}
+		case *ssa.UnOp:
+			if t.Op != token.MUL {
+				return
+			}
+			if f, _ := kit.LoadedField(t); f != nil {
+				kit.Instrs(m, func(in ssa.Instruction) {
+					if st, ok := in.(*ssa.Store); ok {
+						if fa, ok := st.Addr.(*ssa.FieldAddr); ok && kit.FieldOfAddr(fa) == f {
+							rec(st.Val, d+1)
+						}
+					}
+				})
+			}
+			if a, ok := t.X.(*ssa.Alloc); ok && a.Referrers() != nil {
+				for _, ref := range *a.Referrers() {
+					if st, ok := ref.(*ssa.Store); ok && st.Addr == a {
+						rec(st.Val, d+1)
+					}
+				}
+			}
+		}
+	}
+	rec(v, 0)
+	return out
+}
+
+// bytesGuarded: fn takes a *Frame (receiver or parameter) and every return of bytes is dominated by
+// a guard excluding an oversize payload of that frame.
+func (cx *c07ctx) bytesGuarded(fn *ssa.Function, q func(ssa.Value) func(ssa.Value) bool, samples []int64) bool {
+	if fn == nil || fn.Blocks == nil {
+		return false
+	}
+	var frame ssa.Value
+	for _, prm := range fn.Params {
+		if c07isFramePtr(prm.Type()) {
+			frame = prm
+		}
+	}
+	if frame == nil {
+		return false
+	}
+	res := fn.Signature.Results()
+	hasErr := res.Len() > 0 && kit.IsErrorType(res.At(res.Len()-1).Type())
+	n := 0
+	for _, ret := range kit.Returns(fn) {
+		if ret.Block() == fn.Recover || len(ret.Results) == 0 {
+			continue
+		}
+		if hasErr && !kit.ReturnsNilError(ret) {
+			continue
+		}
+		if kit.IsNilConst(kit.ReturnResult(ret, 0)) {
+			continue
+		}
+		n++
+		if !g2lenGuarded(kit.GuardsOf(ret), frame, q, samples) {
+			return false
+		}
+	}
+	return n > 0
+}
+
+func c07isFramePtr(t types.Type) bool {
+	pt, ok := t.(*types.Pointer)
+	if !ok {
+		return false
+	}
+	n, ok := pt.Elem().(*types.Named)
+	return ok && n.Obj().Name() == "Frame" && n.Obj().Pkg() != nil && n.Obj().Pkg().Path() == kit.PkgPath("internal/protocol")
 }
